@@ -426,6 +426,11 @@ fn hist_json(h: &[Kind]) -> Value {
 }
 
 pub fn run(cli: Cli) -> ! {
+    run_with(cli, &|_| {})
+}
+
+/// `extra` adds to the same report (netsim hosts this check and adds whole connections through the assembled router)
+pub fn run_with(cli: Cli, extra: &dyn Fn(&Report)) -> ! {
     let rep = Report::new("C06", cli.tier, "model_checking");
     let all_kinds = kinds();
     let thorough = cli.tier.thorough();
@@ -581,5 +586,6 @@ pub fn run(cli: Cli) -> ! {
     rep.sample(json!({"history": ["handshake-login", "ping-0"], "expect": "no reply, error"}));
     rep.assume("a frame whose id matches the expected packet but whose body leaves trailing bytes (or carries a payload outside the alphabet) may be treated either as the expected packet or as another packet");
     rep.assume("which other packets are tolerated in the configuration phase is not fixed by the statement: there only the set and order of replies and 'no routing before Client Information' are judged");
+    extra(&rep);
     rep.finish()
 }
